@@ -104,21 +104,6 @@ func (c c04Case) label() string {
 	return fmt.Sprintf("%s cuts=%v early=%d others=%v", c.Desc, c.Cuts, c.Early, c.Others)
 }
 
-func c04WaitFor(bound time.Duration, cond func() bool) bool {
-	deadline := time.Now().Add(bound)
-	sleep := 20 * time.Microsecond
-	for !cond() {
-		if time.Now().After(deadline) {
-			return false
-		}
-		time.Sleep(sleep)
-		if sleep < 5*time.Millisecond {
-			sleep *= 2
-		}
-	}
-	return true
-}
-
 // one min/prefix session
 func c04Session(s *vStation, rec *kit.Rec, rng interface{ Read([]byte) (int, error) }, cs c04Case) {
 	label := cs.label()
@@ -187,7 +172,7 @@ func c04Session(s *vStation, rec *kit.Rec, rng interface{ Read([]byte) (int, err
 	}
 	ok := false
 	if !stuck {
-		ok = c04WaitFor(30*time.Second, func() bool {
+		ok = vWaitFor(30*time.Second, func() bool {
 			got, _ := cov.Got()
 			return len(got) >= len(early) && len(conn.Written()) >= len(reply)
 		})
@@ -444,7 +429,7 @@ func c04Obfs4Session(s *vStation, rec *kit.Rec, rng interface{ Read([]byte) (int
 	}
 	ok := false
 	if cerr == nil {
-		ok = c04WaitFor(30*time.Second, func() bool {
+		ok = vWaitFor(30*time.Second, func() bool {
 			got, _ := cov.Got()
 			cmu.Lock()
 			defer cmu.Unlock()
